@@ -388,12 +388,13 @@ def run_unit(unit: dict, res: UnitResult) -> None:
         return
     from .. import dcheck, dsched as D
     D.install(D.repo_file(*FILES))
+    D.DEFAULT_MAX_STEPS = 50000      # runs of this check take < 1000 steps (evidence: steps_per_run_below); no progress within 50000 is reported
     if not dcheck.check_install(res):
         return
     if unit["mode"] == "dfs":
         P = HAND[unit["hand"]]
         res.note("thread_kinds", P["kind"])
-        dcheck.explore(res, ID, "hand%d-%s" % (unit["hand"], P["kind"]), scenario, P, "dfs", bound=unit["bound"], max_runs=unit["max_runs"])
+        dcheck.explore(res, ID, "hand%d-%s" % (unit["hand"], P["kind"]), scenario, P, "dfs", bound=unit["bound"], max_runs=unit["max_runs"], on_failed="violation")
         return
     if unit["mode"] == "stallx":
         r = case_rng(unit["seed"], ID, "stallx", unit["kind"], unit["j"])
@@ -403,16 +404,16 @@ def run_unit(unit: dict, res: UnitResult) -> None:
              "dispose_after": period * (k + r.choice([0.2, 0.45, 0.7])), "handler": True, "horizon": period * (k + 2)}
         res.note("thread_kinds", P["kind"])
         dcheck.explore(res, ID, "stallx%d-%s" % (unit["j"], P["kind"]), scenario, P, "stall", seed=unit["seed"], runs=unit["runs"], stall_files=STALL_FILES,
-                       stall_durations=(period * 0.3, period * 0.6, period * 1.5))
+                       stall_durations=(period * 0.3, period * 0.6, period * 1.5), on_failed="violation")
         return
     for pi in range(*unit["progs"]):
         P = gen_program(case_rng(unit["seed"], ID, unit["kind"], pi), unit["kind"])
         res.note("thread_kinds", P["kind"])
         name = "gen%d-%s" % (pi, P["kind"])
-        dcheck.explore(res, ID, name, scenario, P, "random", seed=unit["seed"], runs=unit["runs"])
-        dcheck.explore(res, ID, name, scenario, P, "pct", seed=unit["seed"], runs=unit["runs"] // 2)
+        dcheck.explore(res, ID, name, scenario, P, "random", seed=unit["seed"], runs=unit["runs"], on_failed="violation")
+        dcheck.explore(res, ID, name, scenario, P, "pct", seed=unit["seed"], runs=unit["runs"] // 2, on_failed="violation")
         dcheck.explore(res, ID, name, scenario, P, "stall", seed=unit["seed"], runs=unit["runs"], stall_files=STALL_FILES,
-                       stall_durations=(P["period"] * 0.6, P["period"] * 1.5))
+                       stall_durations=(P["period"] * 0.6, P["period"] * 1.5), on_failed="violation")
 
 
 def replay(rep: dict, res: UnitResult) -> None:
@@ -421,4 +422,5 @@ def replay(rep: dict, res: UnitResult) -> None:
         return
     from .. import dcheck, dsched as D
     D.install(D.repo_file(*FILES))
+    D.DEFAULT_MAX_STEPS = 50000      # runs of this check take < 1000 steps (evidence: steps_per_run_below); no progress within 50000 is reported
     dcheck.replay(res, ID, scenario, rep)
